@@ -78,6 +78,7 @@ def consts(cfg, which, tracefile=None):
         d[nm] = "[A |-> %s, B |-> %s]" % (seq(map(cand, cfg[key]["A"])), seq(map(cand, cfg[key]["B"])))
     d["MaxReq"] = str(cfg["maxReq"])
     d["Renom"] = "TRUE" if cfg["renom"] else "FALSE"
+    d["NomBase"] = str(cfg.get("nomBase", 0))
     d["Lite"] = "[A |-> %s, B |-> %s]" % tuple("TRUE" if cfg["lite"][a] else "FALSE" for a in "AB")
     d["CheckPrio"] = "[A |-> %s, B |-> %s]" % tuple("TRUE" if cfg["checkPrio"][a] else "FALSE" for a in "AB")
     if which == "mc":
@@ -85,12 +86,14 @@ def consts(cfg, which, tracefile=None):
         t = m
         for k in ("MaxTicks", "MaxLoss", "MaxDup", "MaxFlight", "MaxInject", "MaxRestart", "MaxRenom", "MaxTime"):
             d[k] = str(m[k])
+        d["MaxData"] = str(m.get("MaxData", 0))
         d["Steps"] = "{" + ", ".join(map(str, m["Steps"])) + "}"
     else:
         t = cfg["tr"]
         for k in ("MaxTicks", "MaxLoss", "MaxDup", "MaxFlight", "MaxInject", "MaxRestart", "MaxRenom"):
             d[k] = "100000"
         d["MaxTime"] = "1000000000"
+        d["MaxData"] = "100000"
         d["Steps"] = "{}"
     for k in ("D", "F", "K", "H"):
         d[k] = str(t[k])
